@@ -128,9 +128,7 @@ def check_pair(src, dst, inputs, vis_preds, universe, consts=(), costs=True, one
         A = GP(ga, V, show_terms).slice()
         B = GP(gb, V, show_terms).slice()
         res["sizes"] = {"A": A.stats(), "B": B.stats()}
-        if not A.head_cycle_free() or not B.head_cycle_free():
-            final = ("inconclusive", "non head-cycle-free disjunction: outside the encoding")
-            break
+        res["non_hcf"] = [n for n, g in (("A", A), ("B", B)) if not g.head_cycle_free()]
         if want_reach and "reach" not in res:
             enc, xa = smt.q_reach(A, blocked)
             v, _, dt = solve.run(enc.text(), timeout)
